@@ -90,6 +90,42 @@ func failingAppends(r *fw.Run) {
 			r.Violation(fmt.Sprintf("failing:%s:%d:%s", name, n, hist), fmt.Sprintf("%s: StoredHashes for record %d of log %s returned hashes that differ from a clean build of that log (err=%v)", hist, n, name, err), caseT{Kind: "failing", N: n, Text: hist})
 		}
 	}
+	// a reader that answers with one hash too few or with too many: every prover must report an error, not
+	// panic and not return a result
+	for n := int64(1); n <= int64(N); n++ {
+		for mode := 1; mode < 3; mode++ {
+			for _, c := range []struct {
+				name string
+				f    func(rd tlog.HashReader) error
+			}{
+				{"TreeHash", func(rd tlog.HashReader) error { _, err := tlog.TreeHash(n, rd); return err }},
+				{"ProveRecord", func(rd tlog.HashReader) error { _, err := tlog.ProveRecord(n, n/2, rd); return err }},
+				{"ProveTree", func(rd tlog.HashReader) error { _, err := tlog.ProveTree(n, n/2+1, rd); return err }},
+			} {
+				l.States++
+				l.Execs++
+				l.Transitions++
+				asked := 0
+				rd := tlog.HashReaderFunc(func(ix []int64) ([]tlog.Hash, error) {
+					asked += len(ix)
+					return bad(A, n, mode).ReadHashes(ix)
+				})
+				var err error
+				pan := ""
+				func() {
+					defer func() {
+						if e := recover(); e != nil {
+							pan = fmt.Sprint(e)
+						}
+					}()
+					err = c.f(rd)
+				}()
+				if pan != "" || (err == nil && asked > 0) {
+					r.Violation(fmt.Sprintf("failing:count:%s:%d:%d", c.name, n, mode), fmt.Sprintf("%s on a %d-record log whose reader returns the wrong number of hashes (mode %d): err=%v panic=%q", c.name, n, mode, err, pan), caseT{Kind: "failing", N: n, Text: c.name})
+				}
+			}
+		}
+	}
 	for n := int64(0); n < int64(N); n++ {
 		for mode := 0; mode < 3; mode++ {
 			for _, m := range []int64{n, n + 1, n + 2, n + 3} {
